@@ -91,7 +91,10 @@ BadFieldTypes ==
   << [tag |-> "vec", g |-> Vec(U8)], [tag |-> "string", g |-> StringT], [tag |-> "boxslice", g |-> BoxSlice(U8)],
      [tag |-> "deep", g |-> Inst(D_DZ, <<>>, <<>>)], [tag |-> "refstr", g |-> [k |-> "staticstr"]],
      [tag |-> "refslice", g |-> [k |-> "staticslice"]], [tag |-> "option", g |-> Option(U32)],
-     [tag |-> "rawptr", g |-> [k |-> "rawptr"]] >>
+     [tag |-> "rawptr", g |-> [k |-> "rawptr"]],
+     \* a deep-copy derived struct that is Copy + 'static and has a hand-written MaxSizeOf: only the
+     \* ZeroCopy bound check / IS_ZERO_COPY constant of the *enclosing* definition can reject it
+     [tag |-> "deeppod", g |-> [k |-> "deeppod"]] >>
 WZField(def) ==
   IF def.dk # "struct" \/ def.fields = <<>> THEN {}
   ELSE {[def |-> InMod(SetField(def, i, [def.fields[i] EXCEPT !.g = BadFieldTypes[j].g]), "wz"),
@@ -99,9 +102,11 @@ WZField(def) ==
         : i \in 1..Len(def.fields), j \in 1..Len(BadFieldTypes)}
 WZEnumField(def) ==
   IF def.dk # "enum" THEN {}
-  ELSE {[def |-> InMod([def EXCEPT !.variants[i].fields[1].g = BadFieldTypes[j].g], "wz"),
-         tag |-> BadFieldTypes[j].tag \o "v" \o NumS(i), defence |-> "bound"]
-        : i \in {x \in 1..Len(def.variants) : def.variants[x].fields # <<>>}, j \in {1, 2, 5}}
+  ELSE UNION {
+         {[def |-> InMod([def EXCEPT !.variants[i].fields[f].g = BadFieldTypes[j].g], "wz"),
+           tag |-> BadFieldTypes[j].tag \o "v" \o NumS(i) \o "f" \o NumS(f), defence |-> "bound"]
+          : f \in 1..Len(def.variants[i].fields), j \in {1, 2, 5, 9}}
+         : i \in 1..Len(def.variants)}
 WZAttr(def) ==
   {[def |-> InMod([def EXCEPT !.reprs = SelectSeq(def.reprs, LAMBDA r : r # "C")], "wz"), tag |-> "norepr", defence |-> "macro"],
    [def |-> InMod([def EXCEPT !.da = TRUE], "wz"), tag |-> "both", defence |-> "macro"]}
